@@ -4,7 +4,7 @@
 # demo fails with the patch, and (with "full") the whole existing suite still passes with the patch (demo removed).
 set -u
 d="$(readlink -f "$1")"; full="${2:-}"
-name="conf-$(basename "$(dirname "$d")")-$(basename "$d")"
+name="conf-$(basename "$(dirname "$d")" | tr . _)-$(basename "$d")"
 wt="/tmp/mev/$name"
 export GOFLAGS=-mod=mod GOPROXY=off GOSUMDB=off GOTOOLCHAIN=local
 rm -rf "$wt"; git -C /repo worktree prune; mkdir -p /tmp/mev
